@@ -5,6 +5,7 @@ mod cli;
 mod flags;
 mod probe;
 mod util;
+mod visit;
 
 use std::io::Write;
 
@@ -53,6 +54,7 @@ fn main() {
         "flags" => flags::run(seed, count, &mut out),
         "probe" => probe::run(&mode),
         "cli" => cli::run(seed, count, maxn, &mut out),
+        "visit" => visit::run(seed, count, maxn, &mode, &mut out),
         other => {
             eprintln!("unknown channel {other}");
             std::process::exit(2);
